@@ -8,6 +8,10 @@ package main
 //   delay     seeded: some activations (chosen by a hash of the frame identity) are slow — they yield before
 //             every operation and sleep now and then — so that parents run ahead of the goroutines they start
 //             or the other way round
+//   meet      the script calls verif.Mark(1000+k): at the k-th next operation of the calling goroutine the hook
+//             closes the host channel verif.Gate (on which another goroutine of the script waits), waits until
+//             that goroutine has called verif.Mark(1) (the last statement of its function literal) and has had
+//             time to leave the interpreter, and only then lets the operation run (F08-6 replay)
 //   lockstep  the script calls verif.Mark(id) right before a statement; the goroutines that did so meet at a
 //             barrier in the hook call that precedes that statement and are released together, so that they
 //             execute the statement's closure at the same time on different processors (F08 replay)
@@ -43,10 +47,17 @@ type sched struct {
 	disabled int32
 	first    int32
 	late     int32
+
+	gate      chan bool
+	gateOnce  sync.Once
+	childDone chan struct{}
+	doneOnce  sync.Once
+	countdown map[int64]int
 }
 
 func newSched(c Case) *sched {
-	s := &sched{mode: c.Sched, prob: uint64(c.Prob), seed: uint64(c.Seed)*0x9e3779b97f4a7c15 + 1, parties: int32(c.N), marked: map[int64]bool{}}
+	s := &sched{mode: c.Sched, prob: uint64(c.Prob), seed: uint64(c.Seed)*0x9e3779b97f4a7c15 + 1, parties: int32(c.N), marked: map[int64]bool{},
+		gate: make(chan bool), childDone: make(chan struct{}), countdown: map[int64]int{}}
 	if s.mode == "" {
 		s.mode = "none"
 	}
@@ -65,6 +76,8 @@ func installHook(s *sched) {
 		interp.VerifSetStepHook(s.hookDelay)
 	case "lockstep":
 		interp.VerifSetStepHook(s.hookLockstep)
+	case "meet":
+		interp.VerifSetStepHook(s.hookMeet)
 	default:
 		interp.VerifSetStepHook(nil)
 	}
@@ -110,6 +123,18 @@ func curGID() int64 {
 
 // mark is called by the script (verif.Mark): the calling goroutine meets the others before its next operation.
 func (s *sched) mark(id int) {
+	if s.mode == "meet" {
+		switch {
+		case id >= 1000:
+			g := curGID()
+			s.mu.Lock()
+			s.countdown[g] = id - 1000
+			s.mu.Unlock()
+		case id == 1:
+			s.doneOnce.Do(func() { close(s.childDone) })
+		}
+		return
+	}
 	if s.mode != "lockstep" || atomic.LoadInt32(&s.disabled) != 0 {
 		return
 	}
@@ -161,4 +186,29 @@ func (s *sched) hookLockstep(info interp.VerifStepInfo) {
 		}
 	}
 	atomic.StoreInt32(&s.late, 0)
+}
+
+func (s *sched) hookMeet(info interp.VerifStepInfo) {
+	atomic.AddInt64(&s.steps, 1)
+	g := curGID()
+	s.mu.Lock()
+	n, ok := s.countdown[g]
+	if ok {
+		if n <= 1 {
+			delete(s.countdown, g)
+		} else {
+			s.countdown[g] = n - 1
+		}
+	}
+	s.mu.Unlock()
+	if !ok || n > 1 {
+		return
+	}
+	s.gateOnce.Do(func() { close(s.gate) })
+	select {
+	case <-s.childDone:
+		atomic.AddInt64(&s.meets, 1)
+	case <-time.After(2 * time.Second):
+	}
+	time.Sleep(50 * time.Millisecond)
 }
